@@ -63,10 +63,13 @@ def constraint_census(c, facts):
 
 
 def run(c, facts):
+    c.run(lambda c: I.reduce_first(c, facts, c.rule('C07.R13', 'REDUCE-FIRST: unify() reduces both operands with the current substitution before inspecting them, in every (recursive) call')))
     import c09
     import c05
     c.run(lambda c: c05.r7_var_uniform(c, facts, rule='C07.R12'))
     import c08
+    R14 = c.rule('C07.R14', 'SCOPE-PAIRING: every scope a declaration opens is closed with it, so a later declaration never sees an earlier one\'s parameters and the verdict does not depend on declaration order (shared with C08.R2)')
+    c.shared(R14, c08.r2_pairing, 'C08.R2', facts)
     R11 = c.rule('C07.R11', 'SHADOWING: a binder shadows outer names whatever it is called, so the verdict does not depend on the spelling of bound names (shared with C08.R1)')
     c.shared(R11, c08.r1_innermost, 'C08.R1', facts)
     R10 = c.rule('C07.R10', 'CYCLE-VERDICT: the recursion verdict is a fix-point over the whole graph, independent of the order of declarations (shared with C09.R3)')
